@@ -249,6 +249,39 @@ def _build_independent_routing(col, rule="C20.R4"):
                 f"compiled: {sorted(sorted(x) for x in per['T'])}; pure: {sorted(sorted(x) for x in per['F'])}")
 
 
+def _builtin_attr_assignment(col, rule="C20.R4"):
+    """`ref.<name> = v` for a name that is an attribute of the reference object itself (_key, _owner, _manager, ...) has the
+    same outcome in both builds"""
+    for cname in ("MutableRef", "ObjectAttrRef"):
+        sx = sctx(col.repo, cname, "__setattr__")
+        ends = {}
+        for ev in sx.events:
+            what = None
+            if ev.kind == "raise":
+                what = "raise " + (S.show(ev.value, False).split("(")[0] if ev.value is not None else "")
+            elif ev.kind == "call":
+                f = ev.term[1]
+                if f == ("attr", ("glob", "object"), "__setattr__"):
+                    what = "store on the reference object"
+                elif f[:1] == ("attr",) and f[2] == "set_value":
+                    what = "assign through the manager"
+            if what:
+                ends.setdefault(what, []).append(ev.nid)
+        per = {"T": set(), "F": set()}
+        for what, nids in ends.items():
+            for sg in _path_signatures(sx, nids):
+                flags = {o for t, o in sg if _is_build_test(t)}
+                rest = tuple(sorted((t, o) for t, o in sg if not _is_build_test(t)))
+                for build in ("T", "F"):
+                    if not flags or flags == {build}:
+                        per[build].add((rest, what))
+        same = per["T"] == per["F"]
+        col.add(rule, f"{cname}.__setattr__#same-outcome-in-both-builds", same, sx.loc(sx.fn),
+                "for every attribute name, assignment through a reference ends the same way (stored through the manager, refused "
+                "with the same exception) in the compiled and in the pure-Python build",
+                "" if same else f"compiled only: {sorted(per['T'] - per['F'])}; pure only: {sorted(per['F'] - per['T'])}")
+
+
 C_NUMERIC = ("int", "long", "cython.int", "cython.long", "cython.longlong", "cython.Py_hash_t", "cython.double", "float", "cython.float")
 
 
@@ -368,6 +401,7 @@ def check(col: Collector):
     _cinit_rules(col)
     _compiled_branches(col)
     _build_independent_routing(col)
+    _builtin_attr_assignment(col)
     _c_typed_fields(col)
     _unordered(col)
     # one visited set shared across start vertices => any start order yields a valid order (acyclic case)
